@@ -39,3 +39,175 @@ pub fn any_bytes_upto<const N: usize>() -> Vec<u8> {
     kani::assume(n <= N);
     a[..n].to_vec()
 }
+
+// ------------------------------------------------------------------------------------------
+// Crypto oracles (hook H1 in saito-core/src/core/util/crypto.rs, guard --cfg saito_verif).
+//
+//  hash     : Fresh  — every call returns fresh symbolic 32 bytes (a superset of the behaviours
+//                      of any real hash function: UNSAT under Fresh implies UNSAT for blake3);
+//             Memo   — memoised uninterpreted function, equal input => equal output, new input
+//                      => fresh output assumed different from every earlier output
+//                      (collision freedom); table bounded by the harness.
+//  verify   : Fresh  — arbitrary boolean per call, every call logged (hash, sig, key, answer);
+//             Signed — Dolev–Yao: true iff (hash, sig, key) was produced by the `sign` oracle.
+//  sign     : fresh symbolic 64 bytes, logged with hash(message) and pk_of(private key).
+//  random   : fresh symbolic bytes.
+//  pk_of(sk) = 0x02 ‖ sk  (injective by construction).
+// ------------------------------------------------------------------------------------------
+#[cfg(kani)]
+pub mod oracle {
+    use saito_core::core::defs::{SaitoHash, SaitoPrivateKey, SaitoPublicKey, SaitoSignature};
+    use saito_core::core::util::crypto::verif_hooks;
+
+    pub struct VerifyCall {
+        pub hash: SaitoHash,
+        pub sig: SaitoSignature,
+        pub key: SaitoPublicKey,
+        pub answer: bool,
+    }
+    pub struct SignCall {
+        pub hash: SaitoHash,
+        pub key: SaitoPublicKey,
+        pub sig: SaitoSignature,
+    }
+    pub static mut VERIFY_LOG: Vec<VerifyCall> = Vec::new();
+    pub static mut SIGN_LOG: Vec<SignCall> = Vec::new();
+    pub static mut HASH_IN: Vec<Vec<u8>> = Vec::new();
+    pub static mut HASH_OUT: Vec<SaitoHash> = Vec::new();
+    pub static mut HASH_CALLS: usize = 0;
+    pub static mut HASH_MAX_ENTRIES: usize = 8;
+
+    pub fn pk_of(sk: &SaitoPrivateKey) -> SaitoPublicKey {
+        let mut pk = [0u8; 33];
+        pk[0] = 2;
+        let mut i = 0;
+        while i < 32 {
+            pk[i + 1] = sk[i];
+            i += 1;
+        }
+        pk
+    }
+
+    pub fn hash_fresh(_data: &[u8]) -> SaitoHash {
+        unsafe { HASH_CALLS += 1 };
+        kani::any()
+    }
+    pub fn hash_memo(data: &[u8]) -> SaitoHash {
+        unsafe {
+            HASH_CALLS += 1;
+            let n = HASH_IN.len();
+            let mut i = 0;
+            while i < n {
+                if HASH_IN[i].len() == data.len() && HASH_IN[i][..] == data[..] {
+                    return HASH_OUT[i];
+                }
+                i += 1;
+            }
+            assert!(n < HASH_MAX_ENTRIES, "hash oracle table bound exceeded (outside the claim)");
+            let out: SaitoHash = kani::any();
+            let mut j = 0;
+            while j < n {
+                kani::assume(HASH_OUT[j] != out);
+                j += 1;
+            }
+            HASH_IN.push(data.to_vec());
+            HASH_OUT.push(out);
+            out
+        }
+    }
+    pub fn verify_fresh(h: &SaitoHash, s: &SaitoSignature, k: &SaitoPublicKey) -> bool {
+        let answer: bool = kani::any();
+        unsafe { VERIFY_LOG.push(VerifyCall { hash: *h, sig: *s, key: *k, answer }) };
+        answer
+    }
+    /// consistent symbolic predicate: same triple => same answer
+    pub fn verify_consistent(h: &SaitoHash, s: &SaitoSignature, k: &SaitoPublicKey) -> bool {
+        unsafe {
+            let n = VERIFY_LOG.len();
+            let mut i = 0;
+            while i < n {
+                let c = &VERIFY_LOG[i];
+                if c.hash == *h && c.sig == *s && c.key == *k {
+                    let a = c.answer;
+                    VERIFY_LOG.push(VerifyCall { hash: *h, sig: *s, key: *k, answer: a });
+                    return a;
+                }
+                i += 1;
+            }
+        }
+        verify_fresh(h, s, k)
+    }
+    pub fn verify_signed(h: &SaitoHash, s: &SaitoSignature, k: &SaitoPublicKey) -> bool {
+        let mut answer = false;
+        unsafe {
+            let n = SIGN_LOG.len();
+            let mut i = 0;
+            while i < n {
+                let c = &SIGN_LOG[i];
+                if c.hash == *h && c.sig == *s && c.key == *k {
+                    answer = true;
+                }
+                i += 1;
+            }
+            VERIFY_LOG.push(VerifyCall { hash: *h, sig: *s, key: *k, answer });
+        }
+        answer
+    }
+    pub fn sign_logged(msg: &[u8], sk: &SaitoPrivateKey) -> SaitoSignature {
+        // the real `sign` hashes the message and signs the hash
+        let h = unsafe { (verif_hooks::HASH.unwrap())(msg) };
+        let sig: SaitoSignature = kani::any();
+        unsafe { SIGN_LOG.push(SignCall { hash: h, key: pk_of(sk), sig }) };
+        sig
+    }
+    pub fn random_fresh(len: u64) -> Vec<u8> {
+        assert!(len <= 32);
+        let a: [u8; 32] = kani::any();
+        a[..len as usize].to_vec()
+    }
+    pub fn valid_key_any(_k: &SaitoPublicKey) -> bool {
+        kani::any()
+    }
+
+    #[derive(Clone, Copy, PartialEq)]
+    pub enum HashMode {
+        Fresh,
+        Memo,
+    }
+    #[derive(Clone, Copy, PartialEq)]
+    pub enum VerifyMode {
+        Fresh,
+        Consistent,
+        Signed,
+    }
+    pub fn install(h: HashMode, v: VerifyMode) {
+        unsafe {
+            verif_hooks::HASH = Some(match h {
+                HashMode::Fresh => hash_fresh,
+                HashMode::Memo => hash_memo,
+            });
+            verif_hooks::VERIFY = Some(match v {
+                VerifyMode::Fresh => verify_fresh,
+                VerifyMode::Consistent => verify_consistent,
+                VerifyMode::Signed => verify_signed,
+            });
+            verif_hooks::SIGN = Some(sign_logged);
+            verif_hooks::RANDOM = Some(random_fresh);
+            verif_hooks::VALID_KEY = Some(valid_key_any);
+        }
+    }
+    /// was V(hash, sig, key) asked and answered `true`?
+    pub fn verified_true(h: &SaitoHash, s: &SaitoSignature, k: &SaitoPublicKey) -> bool {
+        unsafe {
+            let mut i = 0;
+            while i < VERIFY_LOG.len() {
+                let c = &VERIFY_LOG[i];
+                if c.answer && c.hash == *h && c.sig == *s && c.key == *k {
+                    return true;
+                }
+                i += 1;
+            }
+        }
+        false
+    }
+}
